@@ -700,6 +700,12 @@ func (e *specEnv) call(s *SExpr) Val {
 		vs := vc.mapVal(m, k.T)
 		first := vc.slIndex(vs, vc.intLit(0))
 		return Val{T: ite(and(vc.mapDom(m, k.T), vc.cmp(">", vc.slLen(vs), vc.intLit(0), true)), first.T, "str_empty"), Sort: "Str", GoT: types.Typ[types.String]}
+	case "ctxdone":
+		// ctxdone(ctx): a receive from ctx.Done() has completed on this path (the context is cancelled / timed out)
+		c := argv(0)
+		setSort := fmt.Sprintf("(Array %s Bool)", c.Sort)
+		cur := x.lookupHeap(e.st, "G:$ctxdone", setSort)
+		return boolVal(fmt.Sprintf("(select %s %s)", cur.T, c.T))
 	case "sprintf":
 		// sprintf(format, args...): the value the code's own fmt.Sprintf(format, args...) denotes (the same uninterpreted
 		// function of the format and the boxed arguments)
